@@ -12,8 +12,43 @@ import vlib
 from props import c10 as common
 
 
+def run_sem(ctx):
+    """Optional leg: semantic + lowering diagnostics (DiagnosticsReporter::check) on generated texts, in
+    the separate binary h10sem (feature `sem`, links the whole compiler)."""
+    import json
+    import time
+    res = {"ok_build": False, "ran": False, "summary": {}, "failures": [], "out": ""}
+    cmd = ["cargo", "build", "--offline", "-p", common.PKG, "--features", "sem", "--bin", "h10sem"]
+    for attempt in range(6):
+        t = time.time()
+        rc, out = vlib.run(cmd, cwd=vlib.HARNESS, timeout=3000)
+        ctx.log("cargo build -p h10 --features sem --bin h10sem: rc=%d (%.0fs)" % (rc, time.time() - t))
+        res["out"] = out
+        if rc == 0:
+            res["ok_build"] = True
+            break
+        # /repo and the harness workspace are shared: give a concurrent edit a moment to settle
+        time.sleep(20)
+    if not res["ok_build"]:
+        ctx.log("\n".join(res["out"].splitlines()[-25:]))
+        return res
+    sem_dir = os.path.join(ctx.out, "sem")
+    vlib.clean_dir(sem_dir)
+    rc, out = vlib.run([vlib.harness_bin("h10sem"), sem_dir, ctx.tier], timeout=5400 if ctx.thorough else 1200)
+    res["out"] = out
+    ctx.log(out.strip().splitlines()[-1] if out.strip() else "h10sem: no output")
+    if rc == 0 and os.path.exists(os.path.join(sem_dir, "sem_summary.json")):
+        res["ran"] = True
+        res["summary"] = json.load(open(os.path.join(sem_dir, "sem_summary.json")))
+        res["failures"] = json.load(open(os.path.join(sem_dir, "sem_failures.json")))
+    else:
+        res["rc"] = rc
+    return res
+
+
 def run(ctx):
     h = common.run_harness(ctx, "C09")
+    sem = run_sem(ctx)
     ok_make, pr = common.run_coq(ctx, "C09.v")
     summary = h["summary"]
     corr_bad, n_shards = [], 0
@@ -30,6 +65,19 @@ def run(ctx):
     n_mine = n_other = n_unknown = 0
     if h["ran"]:
         n_mine, n_other, n_unknown = common.report_oracle_failures(ctx, h["failures"], "C09")
+    n_sem = 0
+    if not sem["ok_build"]:
+        ctx.violation("the semantic-diagnostics leg h10sem does not build against /repo's working tree",
+                      {"theorem_or_correspondence": "exploration leg C09 semantic (h10sem build)",
+                       "detail": sem["out"][-3000:]}, found_input=False)
+    elif not sem["ran"]:
+        ctx.violation("h10sem failed to run (crash of its driver process, not of a watched worker)",
+                      {"output": sem["out"][-3000:], "rc": sem.get("rc")}, found_input=False)
+    else:
+        for f in sem["failures"]:
+            f.setdefault("flags", 0)
+        a, _, c = common.report_oracle_failures(ctx, sem["failures"], "C09", binary="h10sem")
+        n_sem, n_unknown = a, n_unknown + c
     if corr_bad and n_unknown == 0:
         legs = sorted({os.path.basename(s).split("_")[0] for s, _ in corr_bad})
         ctx.violation(
@@ -73,6 +121,8 @@ def run(ctx):
         "coq_case_shards": n_shards,
         "correspondence_disagreements": len(corr_bad),
         "oracle_failures_C09": n_mine,
+        "semantic_leg": sem["summary"] or {"built": sem["ok_build"], "ran": sem["ran"]},
+        "semantic_leg_failures": n_sem,
         "oracle_failures_of_other_property_seen": n_other,
         "oracle_failures_not_matching_a_known_finding": n_unknown,
         "samples": samples or ["(no samples: harness did not run)"],
@@ -89,7 +139,9 @@ def run(ctx):
         "lexer, parser (three file kinds), diagnostics rendering and formatter in watched child processes; a "
         "panic, hang, process death, or diagnostic span outside the file / off a character boundary is a "
         "violation with the delta-debugged input as replay. Semantic and lowering diagnostics "
-        "(DiagnosticsReporter::check) are not exercised by this check.",
+        "(DiagnosticsReporter::check on a one-file crate with the dev corelib) are exercised by a separate, smaller "
+        "leg (h10sem: small corpus programs, one-round mutants, edge cases; panic / hang / death only); plugins "
+        "beyond the default suite and the language server are not exercised.",
         common.TRUSTED,
         "make -C coq/Syntax && coqc coq/Props/C09.v (Print Assumptions); harness/target/debug/h10 out/C09/cases "
         "<tier> C09 -> coqc out/C09/cases/*.v",
